@@ -135,7 +135,7 @@ def diff_history(top0, last0, script):
             row, nested = next(it)
             if w._last_cursor_row is not None:
                 moved[0] += row - w._last_cursor_row
-            if nested:
+            for _ in range(int(nested)):        # that many signals arrive while this one report is being read
                 nested_results.append(w.get_cursor_vertical_diff())
             return (row, 0)
         w.get_cursor_position = fake
@@ -159,13 +159,13 @@ def diff_history(top0, last0, script):
 
 def bounded_diff(check, tier):
     s = Suite(check, "C18.diff", "top_usable_row in -1..4 x last row None/0..4 x sequences of <=2 get_cursor_vertical_diff calls whose "
-              "position queries report rows 0..5, with and without a nested call arriving during the query (then one re-query)",
-              bound="rows<=5, <=2 calls, <=1 nested call per query")
+              "position queries report rows 0..5, with 0, 1, 2 or 3 nested calls arriving during one query (then one re-query)",
+              bound="rows<=5, <=2 calls, <=3 nested calls per query")
     rows = [0, 2, 5] if tier == "quick" else [0, 1, 3, 5]
     for top0 in range(-1, 5):
         for last0 in [None, 0, 2, 4]:
             for r1 in rows:
-                for nested in (False, True):
+                for nested in (False, True, 2, 3):
                     for r1b in (rows if nested else [None]):
                         first = [(r1, nested)] + ([(r1b, False)] if nested else [])
                         for r2 in rows:
